@@ -65,6 +65,19 @@ def _l1(data):
     return data.decode("latin-1")
 
 
+def _omp_prelude(sw, text, fixed):
+    """Conditional-compilation lines before the first statement (the family of F6)."""
+    k = sw.randrange(1, 4)
+    body = sw.choice(["x = 2", "continue", "integer :: omp_v", "end", "program omp_p"])
+    lines = []
+    for _ in range(k):
+        if fixed:
+            lines.append(sw.choice(["!$", "c$", "C$", "*$"]) + "    " + body)
+        else:
+            lines.append(sw.choice(["!$ ", " !$ ", "   !$ "]) + body)
+    return "\n".join(lines) + "\n" + text
+
+
 def _gen_program(st, sw, std, cfg, tag):
     size = sw.randrange(cfg["size"][0], cfg["size"][1] + 1)
     stmts = fgen.generate(st("workload" + tag), std, size, max_depth=sw.randrange(1, 4))
@@ -83,6 +96,8 @@ def _gen_program(st, sw, std, cfg, tag):
         text = rend.text
     else:
         text = fgen.simple_text(stmts)
+    if cfg.get("omp") and sw.random() < 0.5:
+        text = _omp_prelude(sw, text, 0.55 <= form < 0.75)
     if sw.random() < 0.15:
         # non-ASCII but valid UTF-8 inside a comment and a literal
         text = text.replace("\n", "  ! café €\n", 1)
@@ -215,6 +230,7 @@ def generate(run_seed, cfg):
         opts["process_directives"] = True
     if sw.random() < 0.15:
         opts["include_omp_conditional_lines"] = True
+        cfg = dict(cfg, omp=True)
     mode = sw.random()
     case = {"prop": ID, "std": std, "opts": opts}
     if mode < 0.12:
@@ -225,7 +241,7 @@ def generate(run_seed, cfg):
         damaged = []
         muts_all = {}
         for k, nm in enumerate(names):
-            text = _gen_program(st, sw, std, {"size": (3, 14)}, str(k))
+            text = _gen_program(st, sw, std, dict(cfg, size=(3, 14)), str(k))
             if sw.random() < 0.45:
                 data, muts = _damage(st, sw, text, cfg, None)
                 damaged.append(nm)
